@@ -176,8 +176,8 @@ def main():
     rng = random.Random(rep.seed)
     thorough = rep.tier == "thorough"
     cs, r = cases.simulate(n=1500 if thorough else 160, seed=rep.seed, target=9)
-    ex, r2 = cases.exhaustive("ns", target=4 if thorough else 3, members=1)
-    ex = rng.sample(ex, min(len(ex), 2000 if thorough else 150))
+    ex, r2 = cases.exhaustive("ns", target=4, members=1)
+    ex = common.cover_pairs(ex, rng, min(len(ex), 2000 if thorough else 200))
     ex2, r3 = cases.exhaustive("inst", target=40, maxitems=2)
     ex2 = rng.sample(ex2, min(len(ex2), 700 if thorough else 100))
     allc = cs + ex + ex2
